@@ -5,6 +5,9 @@ CONSTANTS
   MaxFaults = 0
   FaultKinds = {}
   StopRoles = {}
+  MaxPauses = 0
+  TimeoutTicks = 2
+  MaxTicks = 3
 INVARIANTS ObsFidelity ObsNoSilentCorruption ObsStopPrompt ObsDeleteExact ObsKeepIntact
 CONSTRAINT HW
 POSTCONDITION Accepted
